@@ -14,18 +14,21 @@ def run(tier, runner):
     r_cd = lifetime.check_dom(sw)
     r_st = ownership.steal([p for p in progs if 'flavour' in p.meta])
     r_sr = ownership.stale_read(sw)
+    r_eo = ownership.each_other(sw)
+    r_es = encoding.enc_sib(progs)
+    r_eo.require(10, 'adjustEachOtherCapacity instantiations')
     r_sr.require(20, 'swap2_impl instantiations')
     r_w.require(18, 'stores to the size words')
     r_tf.require(20, 'swap2_impl instantiations (ordered flavour pairs)')
     r_cd.require(3, 'constructs in the swap paths')
     return {
-        'results': [r_w, r_tf, r_tr, r_cd, r_st, r_sr],
+        'results': [r_w, r_tf, r_tr, r_cd, r_st, r_sr, r_eo, r_es],
         'explanation': 'For every ordered pair of flavours / inline capacities / size types / allocators of the matrix (swap2_impl instantiations): '
                        'ENC-W - sizes are exchanged only through the encoders or jointly with the capacity; THROW-FIRST - every call that may throw '
                        '(size_type overflow test, capacity adjustment) is sequenced before the first modification of either operand, so an impossible '
                        'exchange throws with both contents intact; THROW-REACH - no noexcept function on the swap2 path can reach a throw (it throws '
                        'instead of terminating); CHECK-DOM - the deep swap writes into storage whose capacity adjustEachOtherCapacity has checked '
-                       '(who-may-call: swap2_impl is only entered from swap2); STEAL - the buffer-exchange branch touches no element; STALE-READ - the exchange reads size, capacity and storage of both operands before it overwrites either (no swap without a temporary).',
+                       '(who-may-call: swap2_impl is only entered from swap2); STEAL - the buffer-exchange branch touches no element; EACH-OTHER - adjustEachOtherCapacity really checks both directions (capacity of each operand against the size of the other) on every path that is not a pure buffer exchange; STALE-READ - the exchange reads size, capacity and storage of both operands before it overwrites either (no swap without a temporary).',
         'assumptions': ['that the sequences are exchanged exactly (values) is not decided', 'element moves/swaps are noexcept (otherwise swap_deep can fail part-way)'],
         'trusted': ['evaluated exception specifications', 'the amcsa plugin export', 'the helper-role table'],
     }
